@@ -184,7 +184,7 @@ def recovery_cases(rng, n, ids=()):
                 err = float(np.max(np.abs(r.coef_.T - AB)))
                 info = {}
             except Exception as e:  # noqa
-                err = float('inf'); info = dict(error=f'{type(e).__name__}: {e}')
+                err = float('inf'); info = dict(exception=f'{type(e).__name__}: {e}')
             if not err <= 1e-6 * max(1.0, float(np.max(np.abs(AB)))):
                 if 'F16' in ids and known.F16(name, A):
                     kn['F16'] = kn.get('F16', 0) + 1
